@@ -45,7 +45,7 @@ def _dt_same(cell, k, col, r):
     else: return T(False)
     return z3.Or(z3.And(missing, o_missing), z3.And(z3.Not(missing), z3.Not(o_missing), same))
 
-def same_frame_clauses(a, b, label, dtype_kinds=("b", "i", "f", "T")):
+def same_frame_clauses(a, b, label, dtype_kinds=("b", "i", "f", "T"), exact_floats=True):
     """frame b (after the round trip) has the same names/order, values and missing positions as frame a, and the same
     dtype for bool/int/float/str columns with at least one non-missing value"""
     cl = [(f"{label}: same column names in the same order", T(isinstance(b, Frame) and a.names == b.names))]
@@ -61,6 +61,10 @@ def same_frame_clauses(a, b, label, dtype_kinds=("b", "i", "f", "T")):
         for r in range(len(ca)):
             if ka in _US and ka != kb:
                 cl.append((f"{label}: {nm}[{r}] same instant / missing position", _dt_same(ca.cells[r], ka, cb, r)))
+            elif not exact_floats and ka == "f" and kb == "f":
+                # a text format carries the number, not the bit pattern: -0.0 and 0.0 are the same value there
+                x, y = ca.cells[r], cb.cells[r]
+                cl.append((f"{label}: {nm}[{r}] same value / missing position", z3.Or(z3.And(z3.fpIsNaN(x), z3.fpIsNaN(y)), z3.fpEQ(x, y))))
             else:
                 cl.append((f"{label}: {nm}[{r}] same value / missing position", summary_equal(ca.cells[r], ka, cb.cells[r], kb)))
     return cl
